@@ -16,7 +16,7 @@ MANIFEST = {
     "text": "Breadth-first search over operation histories of depth <= 3 (thorough 4) on one live matcher from the alphabet {M(k): fresh "
             "match of the first k observations (first operation; thorough: anywhere), X(k): match(first k, expand=True) for k >= current "
             "length, W(w): increase_max_lattice_width for w above the current width, C: continue_with_distance() with default and "
-            "explicit radius}, on 57 graphs with 3 nodes, twelve named 4-5 node graphs, three traces (one without, two with an "
+            "explicit radius}, on 57 graphs with 3 nodes, twelve named 4-5 node graphs, four traces (two without, two with an "
             "outlier so that early stops and the jump logic are reachable), 3 families x non-emitting on/off x initial width {None,1} x "
             "2 cut-off sets. States are de-duplicated on a canonical lattice snapshot (keys, rounded probabilities, delayed, stop, "
             "predecessor keys, round, width, trace length, early-stop index). In EVERY reached state, whether or not the call raised, "
@@ -47,10 +47,10 @@ def space(tier):
 def cases(tier):
     for gs in ms.graph_slice("n3" if tier == "quick" else "n4e3"):
         if gs[1] >= 3 and al.nedges(gs[2]) >= 2 and (gs[0] == "GENERIC" or tier == "thorough"):
-            for ti in range(3):
+            for ti in range(4):
                 yield {"gs": list(gs), "ti": ti, "tier": tier}
     for name, pos, g in ms.special_graphs():
-        for ti in range(3):
+        for ti in range(4):
             yield {"gs": ms.explicit(g), "pos": pos, "name": name, "ti": ti, "tier": tier}
 
 
@@ -98,6 +98,13 @@ def invariants(m, tol=1e-9):
                         v.append(f"entry {key} ({e.logprob}) is more probable than its predecessor {p.key} ({p.logprob})")
                     if not e.stop and p.stop:
                         v.append(f"entry {key} is live but its predecessor {p.key} is stopped")
+                    # Without a lattice width (no pruning) and without non-emitting states (no entry with children is replaced
+                    # by a jump candidate) nothing can legitimately re-postpone a predecessor, so there the stronger
+                    # reading of "live" (not stopped AND scheduled for the current round or earlier) must hold as well.
+                    # (With a width it does not: a parent expanded in round 0 may be postponed again by pruning in round 1.)
+                    if m.max_lattice_width is None and not m.non_emitting_states and not e.stop and e.delayed <= m.expand_now and not p.stop and p.delayed > m.expand_now:
+                        v.append(f"no lattice width and no non-emitting states, entry {key} is active (delayed={e.delayed}, round {m.expand_now}) but its "
+                                 f"predecessor {p.key} is postponed (delayed={p.delayed})")
     return v
 
 
@@ -111,10 +118,10 @@ def the_trace(case, graph):
         n = len(P) - 1
         T = 3 if case.get("tier") != "thorough" else 4
         return [[near[0], near[min(2, n)], near[n], near[0]][:T], [near[0], al.FAR[pos], near[n], near[0]][:T],
-                [near[n], near[0], al.FAR[pos], near[1]][:T]][case["ti"]]
+                [near[n], near[0], al.FAR[pos], near[1]][:T], [near[0], near[n // 2], near[n - 1], near[n]][:T]][case["ti"]]
     o = al.OBS[pos]
     T = 3 if case.get("tier") != "thorough" else 4
-    return [[o[0], o[1], o[2], o[3]][:T], [o[1], al.FAR[pos], o[2], o[0]][:T], [o[2], o[0], al.FAR[pos], o[1]][:T]][case["ti"]]
+    return [[o[0], o[1], o[2], o[3]][:T], [o[1], al.FAR[pos], o[2], o[0]][:T], [o[2], o[0], al.FAR[pos], o[1]][:T], [o[1], o[3], o[0], o[2]][:T]][case["ti"]]
 
 
 def run_case(case):
